@@ -120,6 +120,57 @@ def attributes_add_shape(prog, rep, rule):
               "Attributes::add no longer reports a conflict exactly when a different value is present (%s)" % detail)
 
 
+def variable_map_shape(prog, rep, rule):
+    """VariableMap::add: Vacant → insert, Ok; Occupied → Err(VariableAlreadyDefined), nothing written, whatever the flags.
+    VariableMap::set: Occupied ∧ mutable → value written, Ok; Occupied ∧ ¬mutable → Err(CannotAssignImmutableVariable)."""
+    def regions(body, tr):
+        out = {}
+        for b in sorted(body.reachable()):
+            es = [g for g in switch_edges(body, tr, b) if g.variant in ("Occupied", "Vacant")]
+            if len(es) == 2:
+                for g in es:
+                    other = [x for x in es if x is not g][0]
+                    out[g.variant] = body.reach_from([g.dst], avoid={other.dst}) - body.reach_from([other.dst], avoid={g.dst})
+        return out
+    def aggs(body, blocks, adt_suffix):
+        return [st["rv"].get("variant") for b in sorted(blocks) for st in body.blocks[b]["stmts"]
+                if st["k"] == "assign" and st["rv"]["k"] == "aggregate" and (st["rv"].get("adt") or "").endswith(adt_suffix)]
+    fl = [f for f in prog.fns.values() if f.name == "add" and f.self_path == "tsg::variables::VariableMap" and f.trait == "tsg::variables::MutVariables"]
+    if len(fl) != 1:
+        rep.violation(rule, "anchor-lost:VariableMap::add", "", "not found")
+    else:
+        f = fl[0]
+        body, tr = f.body, Tracer(f.body)
+        r = regions(body, tr)
+        occ, vac = r.get("Occupied", set()), r.get("Vacant", set())
+        occ_calls = sorted({callee_fn(body.term(b))["def"].rsplit("::", 1)[-1] for b in occ if body.term(b)["k"] == "call" and callee_fn(body.term(b))})
+        ok = bool(occ) and bool(vac) and aggs(body, occ, "variables::VariableError") == ["VariableAlreadyDefined"] and "Ok" not in aggs(body, occ, "result::Result") and \
+            not any(c in ("get_mut", "insert", "into_mut", "remove") for c in occ_calls) and not any(True for b in occ for g in switch_edges(body, tr, b)) and \
+            any(body.term(b)["k"] == "call" and is_callee(body.term(b), r"VacantEntry::<'a, K, V, A>::insert$") for b in vac) and "Err" not in aggs(body, vac, "result::Result")
+        rep.check(ok, rule, "VariableMap::add :: shape", f.loc(), "Vacant → insert+Ok; Occupied → Err(VariableAlreadyDefined), unconditionally and without writing",
+                  "VariableMap::add no longer refuses every second definition of a name (occupied arm: errors %s, calls %s, branches %s)" % (aggs(body, occ, "variables::VariableError"), occ_calls, any(True for b in occ for g in switch_edges(body, tr, b))))
+    fl = [f for f in prog.fns.values() if f.name == "set" and f.self_path == "tsg::variables::VariableMap" and f.trait == "tsg::variables::MutVariables"]
+    if len(fl) != 1:
+        rep.violation(rule, "anchor-lost:VariableMap::set", "", "not found")
+    else:
+        f = fl[0]
+        body, tr = f.body, Tracer(f.body)
+        r = regions(body, tr)
+        occ = r.get("Occupied", set())
+        muts = [g for b in sorted(occ) for g in switch_edges(body, tr, b) if re.search(r"\.mutable$", canon(strip(g.cond)))]
+        ok = len(muts) == 2
+        if ok:
+            t_edge = [g for g in muts if g.value is True][0]
+            f_edge = [g for g in muts if g.value is False][0]
+            t_r = body.reach_from([t_edge.dst], avoid={f_edge.dst})
+            f_r = body.reach_from([f_edge.dst], avoid={t_edge.dst})
+            writes_t = [1 for b, idx, st in body.field_writes() if b in t_r and any(x.get("name") == "value" for x in st["p"].get("p", []) if x["k"] == "field")]
+            writes_f = [1 for b, idx, st in body.field_writes() if b in (f_r - t_r)]
+            ok = bool(writes_t) and not writes_f and "CannotAssignImmutableVariable" in aggs(body, f_r - t_r, "variables::VariableError") and not aggs(body, t_r - f_r, "variables::VariableError")
+        rep.check(ok, rule, "VariableMap::set :: shape", f.loc(), "bound ∧ mutable → value replaced; bound ∧ immutable → CannotAssignImmutableVariable, nothing written",
+                  "VariableMap::set does not distinguish mutable from immutable bindings as specified")
+
+
 def value_equality_structural(prog, rep, rule):
     """Value / SyntaxNodeRef / GraphNodeRef equality, ordering and hashing are the derived,
     field-by-field ones (a conflict test by `!=` is only as good as PartialEq)"""
